@@ -534,3 +534,35 @@ Proof.
   assert (Q0 : QI maxp (sr_new ranges)) by (intros _ c0 ct0 H; discriminate H).
   intros SC. exact (X ops _ _ (wf_new ranges) Q0 G R MP c ct SC).
 Qed.
+
+(* --- the full resource vector across a stop: held by nobody it should not be, nothing of anybody else released --- *)
+Definition after_stop_of (n : string) (e : option owner) : option owner :=
+  match e with
+  | Some (OPxy m) => if String.eqb m n then None else e
+  | _ => e
+  end.
+
+Theorem close_changes_exactly_own_entries : forall ranges maxp maxpool s c n s' ct o,
+  reach ranges maxp maxpool s -> ss_get c (sr_sess s) = Some ct -> nm_get n (ss_pxys ct) = Some o ->
+  y_close maxp s c n = Some s' ->
+  (forall k, rget_ k (sr_res s') = after_stop_of n (rget_ k (sr_res s))) /\
+  (forall m, m <> n -> nm_get m (sr_names s') = nm_get m (sr_names s)) /\ nm_get n (sr_names s') = None /\
+  sr_grp s' = sr_grp s /\ sr_squat s' = sr_squat s.
+Proof.
+  intros ranges maxp maxpool s c n s' ct o R SC PC H. pose proof (reach_wf _ _ _ _ R) as W.
+  assert (L0 : live s n o) by (exists c, ct; auto).
+  pose proof (wf_obj _ _ W _ _ L0) as OK. pose proof OK as [ON _].
+  unfold y_close in H. rewrite SC, PC in H. injection H as <-.
+  destruct (px_close_spec s n o OK) as [CR [[C1 [C2 [C3 C4]]] _]]. unsr. rewrite ON, C3.
+  csplit; auto.
+  - intros k. rewrite CR. fold (rdel_all (po_slots o) (sr_res s)).
+    destruct (in_dec (fun a b => match slot_eqb_spec a b with ReflectT _ e => left e | ReflectF _ e => right e end) k (po_slots o)) as [I|NI].
+    + rewrite rdel_all_get_in by assumption. rewrite (wf_pres _ _ W _ _ _ L0 I). unfold after_stop_of. rewrite String.eqb_refl. reflexivity.
+    + rewrite rdel_all_get by assumption. unfold after_stop_of.
+      destruct (rget_ k (sr_res s)) as [[m|g]|] eqn:E; try reflexivity.
+      destruct (String.eqb_spec m n) as [->|]; [|reflexivity]. exfalso.
+      apply (al_get_in slot_eqb_spec) in E. destruct (wf_held _ _ W _ _ E) as [n' [o' [E' [L' I']]]].
+      injection E' as <-. rewrite (live_fun _ _ _ _ _ W L' L0) in I'. contradiction.
+  - intros m N. apply nm_get_del_neq. assumption.
+  - apply nm_get_del_eq.
+Qed.
